@@ -56,7 +56,8 @@ def generate(prop, seed, tier):
                      'j_precompute': g.random() < 0.25, 'dtype': g.choice(['float64', 'float64', 'float32']),
                      'grad': sem in ('real', 'log') and g.random() < 0.6,
                      'linalg_fail': g.choice([None, None, None, ['all'], [1], [2]]) if sem == 'real' else None,
-                     'block_bytes': g.choice([None, None, None, 256, 8]), 'reduce_skip': g.random() < 0.2})
+                     'block_bytes': g.choice([None, None, None, 256, 8]), 'reduce_skip': g.random() < 0.2,
+                     'implicit_dtype': g.random() < 0.3})
     cli = None
     if g.random() < (0.03 if tier == 'quick' else 0.08):
         cli = {'method': g.choice(['fixed-point', 'newton', 'linear']), 'j': False, 'double': g.random() < 0.7, 'grad_all': g.random() < 0.6,
@@ -110,7 +111,7 @@ def run_cfg(F, case, cfg, cot):
     env = {'alloc': {'mode': 'order', 'seed': case['seed']}, 'axhash': case['seed'], 'dtype': cfg['dtype'],
            'linalg_fail': cfg.get('linalg_fail'), 'block_bytes': cfg.get('block_bytes'), 'reduce_skip': cfg.get('reduce_skip')}
     with Env(env) as e:
-        S = semiring_obj(cfg['semiring'], dtype)
+        S = semiring_obj(cfg['semiring'], dtype, implicit=bool(cfg.get('implicit_dtype')))
         pres = build.random_presentation(spec, Stream(case['pres_seed'], 'pres'), allow_rename=False, allow_domperm=False, via=('api',))
         B = build.build(spec, pres, interp=True, weights_transform=lift(cfg['semiring']), dtype=dtype, requires_grad=bool(cfg.get('grad')))
         f32 = cfg['dtype'] == 'float32'
@@ -353,7 +354,7 @@ def execute(case):
                                 V('cli', ['gradient-missing'], f'no grad[{n}] line in the output')
                             a = rr['grads'][n].numpy()
                             k = float(max(1.0, amp.max())) ** 2
-                            rt = (5e-3 if f32 else 1e-5) * k
+                            rt = (5e-3 if f32 else max(1e-8, 20 * cli['tol'])) * k
                             if got[n].shape != a.shape or not np.all(np.abs(got[n] - a) <= rt * np.maximum(1.0, np.abs(a).max() if a.size else 1.0)):
                                 has_zero_w = (np.asarray(spec['terms'][n]['weights'], dtype=np.float64) == 0).any()
                                 V('cli', ['gradient'] + (['fixed-point-structural-zero'] if cli['method'] == 'fixed-point' and has_zero_w else []),
